@@ -1,10 +1,13 @@
 (* Line-protocol driver around the extracted C16 fetch models (model.ml).
    One command per input line, one result per output line.
-     qtrace   <gen|old> <file hex> <ranges o:s|..> <workers> <failing o:s|.. or -> <events tid.label,..>
+     qtrace   <gen|old> <file hex> <ranges o:s|..> <workers> <failing o:s:status|.. or -> <events tid.label,..>
+              (status: what the server answers the request for that range with; -1 = no answer, session.get raises;
+               whether the request FAILS is decided by the extracted HttpRangeStream.read: stream_fails gen_stream_read)
      qexplore <gen|old> <file hex> <ranges> <workers> <failing> <max states>
      xtrace   <T|F per job stream> <sub|comp> <file hex> <ranges> <workers> <failing> <events>
      xexplore <T|F> <sub|comp> <file hex> <ranges> <workers> <failing> <max states>
      shape
+   The queue strategy runs in the step-by-step system (pstate/pstep): main's puts (qput) and thread starts (start) are events.
    Events are the visible operations of the implementation in the order the controller granted them; the driver lets the
    model take the silent steps (instructions that are no-ops on this path, local computation of main) by itself. *)
 open Model
@@ -31,7 +34,16 @@ let range_of_tok t = match String.split_on_char ':' t with
   | _ -> failwith ("bad range " ^ t)
 let tok_of_range (o, s) = Printf.sprintf "%d:%d" (int_of_z o) (int_of_z s)
 let ranges_of_tok t = List.map range_of_tok (split_on '|' t)
-let fails_of_tok t = let l = List.map (fun r -> tok_of_range r) (ranges_of_tok t) in fun r -> List.mem (tok_of_range r) l
+(* failing token o:s:status (o:s = status 500): the server of the run; a request fails when the extracted read says so *)
+let fails_of_tok t =
+  let l = List.map (fun tok -> match String.split_on_char ':' tok with
+      | [o; s] -> (o ^ ":" ^ s, 500)
+      | [o; s; st] -> (o ^ ":" ^ s, int_of_string st)
+      | _ -> failwith ("bad failing range " ^ tok)) (split_on '|' t) in
+  let server r = match List.assoc_opt (tok_of_range r) l with
+    | Some st -> if st < 0 then None else Some { r_status = z_of_int st; r_body = [] }
+    | None -> Some { r_status = z_of_int 206; r_body = [] } in
+  stream_fails gen_stream_read server
 
 let rec nth_opt l n = match l, n with [], _ -> None | x :: _, 0 -> Some x | _ :: r, n -> nth_opt r (n - 1)
 
@@ -39,10 +51,13 @@ let rec nth_opt l n = match l, n with [], _ -> None | x :: _, 0 -> Some x | _ ::
 let prog_of_tok = function "gen" -> gen_worker_prog | "old" -> old_worker_prog | t -> failwith ("bad prog " ^ t)
 
 (* label of thread t's next instruction: `Vis l | `Silent | `None (exited / finished) *)
-let q_next wp s t =
+let q_next wp ps t =
+  let s = ps.p_s in
   if t = 0 then
     (match s.s_status with
      | MRunning -> (match s.s_todo with
+         | MPutAll :: _ -> if ps.p_toput <> [] then `Vis "qput" else `Silent
+         | MStart _ :: _ -> if ps.p_tostart <> O then `Vis "start" else `Silent
          | MJoin :: _ -> `Vis "join" | MDrain :: _ -> `Vis "drain"
          | _ -> `Silent)
      | _ -> `None)
@@ -62,39 +77,40 @@ let q_next wp s t =
 let rec q_silent wp file fails s t fuel =
   if fuel = 0 then s else
   match q_next wp s t with
-  | `Silent -> (match step wp file fails s (nat_of_int t) with Some s' -> q_silent wp file fails s' t (fuel - 1) | None -> s)
+  | `Silent -> (match pstep wp file fails s (nat_of_int t) with Some s' -> q_silent wp file fails s' t (fuel - 1) | None -> s)
   | _ -> s
 
+let q_threads ps = List.length ps.p_s.s_ws
+
 let q_all_silent wp file fails s =
-  let n = List.length s.s_ws in
+  let n = q_threads s in
   let r = ref s in
   for t = 0 to n do r := q_silent wp file fails !r t 50 done; !r
 
-let q_threads s = List.length s.s_ws
-
 let q_enabled wp file fails s =
   List.filter (fun t -> match q_next wp s t with
-      | `Vis _ -> step wp file fails s (nat_of_int t) <> None
+      | `Vis _ -> pstep wp file fails s (nat_of_int t) <> None
       | _ -> false)
     (List.init (q_threads s + 1) (fun i -> i))
 
-let q_summary wp file fails s steps =
-  let s = q_all_silent wp file fails s in
+let q_summary wp file fails ps steps =
+  let ps = q_all_silent wp file fails ps in
+  let s = ps.p_s in
   let status = match s.s_status with MRunning -> "running" | MReturned -> "returned" | MRaised r -> "raised:" ^ tok_of_range r in
   let exited = String.concat "" (List.map (fun w -> match w with WExit -> "1" | _ -> "0") s.s_ws) in
-  let en = q_enabled wp file fails s in
-  Printf.sprintf "ok status=%s buf=%s exited=%s stuck=%s steps=%d" status (tok_of_bytes s.s_buf)
-    (if exited = "" then "-" else exited) (if en = [] then "T" else "F") steps
+  let en = q_enabled wp file fails ps in
+  Printf.sprintf "ok status=%s buf=%s exited=%s stuck=%s steps=%d toput=%d tostart=%d" status (tok_of_bytes s.s_buf)
+    (if exited = "" then "-" else exited) (if en = [] then "T" else "F") steps (List.length ps.p_toput) (int_of_nat ps.p_tostart)
 
 let q_macro wp file fails s t =
   (* silent steps of t, then its visible step if enabled *)
   let s1 = q_silent wp file fails s t 50 in
   match q_next wp s1 t with
-  | `Vis l -> (match step wp file fails s1 (nat_of_int t) with Some s2 -> Some (l, s2) | None -> None)
+  | `Vis l -> (match pstep wp file fails s1 (nat_of_int t) with Some s2 -> Some (l, s2) | None -> None)
   | _ -> None
 
 let qtrace wp file ranges workers fails events =
-  let s = ref (init gen_main_prog ranges (nat_of_int workers)) in
+  let s = ref (pinit gen_main_prog ranges (nat_of_int workers)) in
   let k = ref 0 in
   let err = ref None in
   List.iter (fun ev ->
@@ -105,7 +121,7 @@ let qtrace wp file ranges workers fails events =
           let s1 = q_silent wp file fails !s t 50 in
           (match q_next wp s1 t with
            | `Vis l when l = lab ->
-             (match step wp file fails s1 (nat_of_int t) with
+             (match pstep wp file fails s1 (nat_of_int t) with
               | Some s2 -> s := s2; incr k
               | None -> err := Some (Printf.sprintf "reject at=%d thread=%d got=%s expected=blocked" !k t lab))
            | `Vis l -> err := Some (Printf.sprintf "reject at=%d thread=%d got=%s expected=%s" !k t lab l)
@@ -114,8 +130,10 @@ let qtrace wp file ranges workers fails events =
       end) events;
   match !err with Some e -> e | None -> q_summary wp file fails !s !k
 
-let q_key s =
+let q_key ps =
+  let s = ps.p_s in
   let b = Buffer.create 128 in
+  Buffer.add_string b (Printf.sprintf "%d.%d|" (List.length ps.p_toput) (int_of_nat ps.p_tostart));
   List.iter (fun r -> Buffer.add_string b (tok_of_range r); Buffer.add_char b ',') s.s_q;
   Buffer.add_string b (Printf.sprintf "|%d|" (int_of_nat s.s_unf));
   let it = function IData r -> "d" ^ tok_of_range r | IExc r -> "e" ^ tok_of_range r in
@@ -162,7 +180,7 @@ let explore key enabled macro s0 maxstates =
     (String.concat ";" (List.map (fun p -> if p = [] then "-" else String.concat "," (List.map string_of_int p)) !scheds))
 
 let qexplore wp file ranges workers fails maxstates =
-  let s0 = init gen_main_prog ranges (nat_of_int workers) in
+  let s0 = pinit gen_main_prog ranges (nat_of_int workers) in
   explore q_key (fun s -> List.filter (fun t -> q_macro wp file fails s t <> None) (List.init (q_threads s + 1) (fun i -> i)))
     (fun s t -> match q_macro wp file fails s t with Some (_, s') -> Some s' | None -> None) s0 maxstates
 
@@ -290,6 +308,10 @@ let tok_of_minstr = function
   | MPutAll -> "put_all" | MStart b -> if b then "start_min" else "start_all" | MJoin -> "join" | MDrain -> "drain" | MSort -> "sort"
   | MAssemble -> "assemble"
 
+let tok_of_sinstr = function
+  | SZeroEmpty -> "zero_empty" | SRequest -> "request" | SRaiseForStatus -> "raise_for_status" | SAdvance -> "advance"
+  | SReturnContent -> "return_content"
+
 let handle line =
   match String.split_on_char ' ' (String.trim line) with
   | ["qtrace"; p; f; r; w; fl; ev] ->
@@ -305,9 +327,11 @@ let handle line =
     let xs = xstep (pj = "T") (collect_of_tok c) job (bytes_of_tok f) (fails_of_tok fl) in
     xexplore xs job (ranges_of_tok r) (int_of_string w) (int_of_string m)
   | ["shape"] ->
-    Printf.sprintf "ok worker=%s main=%s per_job=%s collect=%s"
+    Printf.sprintf "ok worker=%s main=%s per_job=%s collect=%s read=%s reader_workers_for_7=%d"
       (String.concat "," (List.map tok_of_winstr gen_worker_prog)) (String.concat "," (List.map tok_of_minstr gen_main_prog))
       (if gen_exec_stream_per_job then "T" else "F") (match gen_exec_collect with BySubmission -> "sub" | ByCompletion -> "comp")
+      (String.concat "," (List.map tok_of_sinstr gen_stream_read)) (int_of_nat (gen_fetch_workers (nat_of_int 7)))
+  | ["workers"; n] -> Printf.sprintf "ok workers=%d" (int_of_nat (gen_fetch_workers (nat_of_int (int_of_string n))))
   | _ -> "error bad command"
 
 let () =
